@@ -33,6 +33,8 @@ MStep == /\ l <= Len(Trace) /\ l' = l + 1
                     [] E.kind = "missing" -> [twin |-> TRUE, lit |-> TRUE, prop |-> TRUE, expr |-> TRUE, nopanic |-> ~E.panic, valid |-> MissingOK(E), exact |-> TRUE]
                     [] E.kind = "vstruct" -> [twin |-> TRUE, lit |-> TRUE, prop |-> TRUE, expr |-> TRUE, nopanic |-> ~E.panic, exact |-> TRUE,
                                               valid |-> (E.ok <=> ~ValidationFails(ToInt(E.x), ConsOf(E.cons)))]
+                    [] E.kind = "vnest" -> [twin |-> TRUE, lit |-> TRUE, prop |-> TRUE, expr |-> TRUE, nopanic |-> ~E.panic, exact |-> TRUE,
+                                            valid |-> (E.ok <=> ~NestedRequiredFails(E.ptr, E.nx))]
                     [] E.kind = "vslice" -> [twin |-> TRUE, lit |-> TRUE, prop |-> TRUE, expr |-> TRUE, nopanic |-> ~E.panic, exact |-> TRUE,
                                              valid |-> (E.ok <=> ~ListValidationFails(E.xs, ConsOf(E.cons)))]
                     [] E.kind = "validate" -> [twin |-> TRUE, lit |-> TRUE, prop |-> TRUE, expr |-> TRUE, nopanic |-> ~E.panic, exact |-> TRUE,
